@@ -45,6 +45,62 @@ CLAIMED = {
         'proved. Trusts the table translator, harness-assigned object identities, the harness, Coq kernel.',
         'DESIGN.md section 4, C07',
     ),
+    'C09': (
+        'Coq proof, for all n, K (K > n included), FFT sizes >= 2K-1 and batch shapes, that the four evaluation kernels '
+        '(dense, direct, fft, overlap_save) equal the banded product, over an arbitrary commutative ring; the integer '
+        'arithmetic of toeplitz.py (padding, block count, offsets, slice bounds, default FFT size, constructor '
+        'validation, dtype of the output buffer) is REGENERATED from the source by a fail-closed ast translator on every '
+        'run and the theorems are re-proved against it; differential correspondence with the real operator',
+        'dense_spec, T_symmetric, dense/direct/fft/overlap_save_eq, mv_correct (end to end from an accepted constructor '
+        'call, batched rows), as_matrix block-diagonal, ctor_rejects / ctor_accepts_admissible, dtype_preserved, '
+        'default_fft_ok: all sizes, no bound. Tie: T-tie FuraxGen.ToeplitzArith + C-tie on all n<=12, K<=6, admissible and '
+        'inadmissible fft sizes, 4 methods, batch shapes, dtypes x x64 modes, plus spec_* cases validating the Gallina '
+        'specifications of the JAX primitives.',
+        'Trusts the DFT convolution theorem for jnp.fft (circular convolution spec), the Gallina specs of pad/convolve/'
+        'dynamic_slice/dynamic_update_slice/vectorize/block_diag (validated against JAX by spec cases), exact ring '
+        'arithmetic standing for floating point, the translator tools/translate/toeplitz.py, the harness, Coq kernel.',
+        'DESIGN.md section 4, C09',
+    ),
+    'C13': (
+        'Coq proof over all ranks, axis tuples (any signs/lengths) and shapes that MoveAxis is the numpy.moveaxis '
+        'permutation with transpose = inverse, that Ravel/Reshape keep row-major data (so transpose = inverse), exact '
+        'iff-characterisations of constructor acceptance (ravel guards, -1 inference), reduce-to-identity iff no-op, '
+        'soundness of the two inverse rules; differential correspondence with the real operators',
+        'moveaxis_spec/inverse/inverse_pytree/T_inverse/rule_sound, ravel_ctor_iff/assert_unreachable/spec, '
+        'reshape_ctor_iff/completed_shape/data_identity/reshapeT_restores_shape, reduce_identity_iff_noop, '
+        'reshape_rule_sound: all inputs (model level). Tie: C-tie on ~9000 (quick) constructor calls and applications: '
+        'all leaf shapes of rank <= 4 over dims {1,2,3}, all source/destination tuples, all (first,last) in [-5,5]^2, all '
+        'factorisations with -1, malformed stream, pytrees of different ranks; oracle numpy.moveaxis/reshape.',
+        'Trusts the Gallina specs of jnp.moveaxis / reshape / jax.tree.map (validated on the enumerated scope), '
+        'harness-assigned object identities for `is`, the harness, Coq kernel.',
+        'DESIGN.md section 4, C13',
+    ),
+    'C14': (
+        'Coq proof that for every subscript string accepted by the (transcribed) rewriting function the rewritten einsum is '
+        'the exact adjoint (re-indexing of the triple sum along the swap of the contracted and free block letters), '
+        'involutivity, exact accept/reject characterisation, every rejection a ValueError; the pinned (pre-fix) '
+        'first-occurrence swap is kept as a refuted variant; differential correspondence on all short strings',
+        'rewrite_adjoint / rewrite_adjoint_mv / rewrite_adjoint_Z (all strings, shapes, blocks, inputs), accepts_iff, '
+        'rejects_without_rewriting, outcome_total, rewrite_involutive. Tie: C-tie on every string l,r->o over {i,j,k,...} up '
+        'to the enumerated lengths plus malformed strings (outcome compared), and mv / T.mv / dense matrices on integer '
+        'blocks; oracle mat(op.T) = mat(op)^T with NumPy einsum.',
+        'Trusts the textbook einsum specification for jnp.einsum (size-1 ellipsis broadcasting not modelled), Python '
+        'string/set operations as transcribed, the harness, Coq kernel.',
+        'DESIGN.md section 4, C14',
+    ),
+    'C17': (
+        'Coq proof for any number of dimensions that pixel2index is the mixed-radix bijection (first coordinate fastest) '
+        'with round-half-even, -1 exactly for coordinates outside the map, no wrap-around for the chosen integer width '
+        '(machine-integer wrap written into the model), dtype wide enough, coverage = histogram; differential '
+        'correspondence incl. maps around 2^31 pixels in both x64 modes; healpy agreement tested numerically only',
+        'p2i_spec/formula/row_major/bijection_*/outside/minus_one_iff/rounding/no_wrap/invalid_masked, dtype_wide_enough, '
+        'dtype_dims_strides_fit, coverage_histogram, constructor theorems: all shapes, all coordinates. Tie: C-tie on '
+        'quarter-integer grids over all small shapes and on adversarial huge shapes (2^31 boundary), coverage on random and '
+        'adversarial samplings. Partial: jax_healpy.ang2pix vs healpy is a numerical cross-check, not a theorem.',
+        'Trusts Gallina specs of jnp.round, astype saturation, int32/int64 wrap, unique/scatter-add (compared with JAX), '
+        'coordinates as exact rationals, jax_healpy.ang2pix not modelled (healpy clause partial), the harness, Coq kernel.',
+        'DESIGN.md section 4, C17',
+    ),
 }
 
 PENDING_REASON = 'check not built yet in this session (work in progress; see DESIGN.md section 8 for the order of work)'
